@@ -215,8 +215,8 @@ def run(ctx):
                    "(empty/1 byte, equal-length, compressible text, 64 KiB compressible + 64 KiB random); B1: seeded random histories per "
                    "subject (put, put_batch, remove, get, contains, size, len, clear, save->load / reopen, keyed put/get/prefix), fills of "
                    "0..129 records, and bulk builds of 0,1,2,63..65,127..129,255..257,511..513 records x 6 record-length profiles for every "
-                   "builder-made store; every event validated by TLC against BlobStore.tla.  distinct = (subject, history) pairs with at "
-                   "least one successful store and one successful read; subjects that never stored anything readable are listed as "
+                   "builder-made store; every event validated by TLC against BlobStore.tla.  distinct = (subject, history, concretisation) executions of B2 plus "
+                   "(subject, run) pairs of B1, for subjects with at least one successful store and one successful read; subjects that never stored anything readable are listed as "
                    "vacuous and not counted.  exhaustive refers to the B2 history space." % ("4" if ctx.thorough else "3"))
     if b1files:
         ctx.sample_from_trace(plain, 8)
